@@ -1,0 +1,14 @@
+//go:build verif
+
+package service
+
+// Contracts for package service, checked by /verif (govc). Comment-only file: it adds no declarations.
+
+//@ func (s *Service) GetCharacteristics() (result)
+//@   requires s != nil
+//@   pure
+//@   ensures fresh(result) || len(result) == 0
+//@   ensures len(result) == len(s.Characteristics) && forall(i, 0, len(result), result[i] == s.Characteristics[i])
+//@   loop 0
+//@     invariant idx: 0 <= loopidx && loopidx <= len(s.Characteristics) && len(result) == loopidx && (cap(result) == 0 || !existed(result))
+//@     invariant copy: forall(i, 0, len(result), result[i] == s.Characteristics[i])
